@@ -73,6 +73,7 @@ type AnnoOpts struct {
 	SamConflicts bool // (SAM form) allow an extra supplementary record whose bases may disagree with the others
 	NoStop       bool // allow CDS features that do not end in a stop codon (partial CDS, polyprotein fragments)
 	DupNames     bool // allow two single-row CDS that share a gene name, and top-level GFF3 rows without an ID
+	GenomeLen    int  // if > 0, the genome length to use (callers that want a long genome)
 	Rotate       bool // allow joins whose segments are not written in ascending order (a feature spanning the origin of a circular genome)
 }
 
@@ -518,7 +519,10 @@ func RenderGFFSeq(r *fw.Rng, a Annotation, withFasta bool, fastaSeq string) stri
 	if r.Chance(0.7) {
 		sb.WriteString(fmt.Sprintf("##sequence-region %s 1 %d\n", a.RefName, len(a.Ref)))
 	}
+	var groups [][]string // the rows of each feature, and what follows them
+	emit := func(line string) { groups[len(groups)-1] = append(groups[len(groups)-1], line) }
 	for _, f := range a.Feats {
+		groups = append(groups, nil)
 		strand := "+"
 		if f.Strand < 0 {
 			strand = "-"
@@ -556,16 +560,35 @@ func RenderGFFSeq(r *fw.Rng, a Annotation, withFasta bool, fastaSeq string) stri
 			if r.Chance(0.2) {
 				src, score = []string{"RefSeq", "GenBank", "."}[r.Intn(3)], []string{".", "0.5", "100"}[r.Intn(3)]
 			}
-			sb.WriteString(fmt.Sprintf("%s\t%s\t%s\t%d\t%d\t%s\t%s\t%s\t%s\n", a.RefName, src, typ, s[0], s[1], score, strand, phase, attrs))
+			emit(fmt.Sprintf("%s\t%s\t%s\t%d\t%d\t%s\t%s\t%s\t%s\n", a.RefName, src, typ, s[0], s[1], score, strand, phase, attrs))
 		}
 		if r.Chance(0.15) {
 			lo, hi := f.Bounds()
 			kind := []string{"five_prime_UTR", "stem_loop", "region", "exon"}[r.Intn(4)]
-			sb.WriteString(fmt.Sprintf("%s\tsynthetic\t%s\t%d\t%d\t.\t%s\t.\tID=other-%s;Name=%s\n", a.RefName, kind, lo, hi, strand, f.ID, "other_"+f.ID))
+			emit(fmt.Sprintf("%s\tsynthetic\t%s\t%d\t%d\t.\t%s\t.\tID=other-%s;Name=%s\n", a.RefName, kind, lo, hi, strand, f.ID, "other_"+f.ID))
 		}
 		if r.Chance(0.2) {
 			lo, hi := f.Bounds()
-			sb.WriteString(fmt.Sprintf("%s\tsynthetic\tgene\t%d\t%d\t.\t%s\t.\tID=gene-%s\n", a.RefName, lo, hi, strand, f.ID))
+			emit(fmt.Sprintf("%s\tsynthetic\tgene\t%d\t%d\t.\t%s\t.\tID=gene-%s\n", a.RefName, lo, hi, strand, f.ID))
+		}
+	}
+	// the rows of one ID need not be adjacent (a file sorted by start coordinate lists a gene
+	// that lies in an intron between the rows of the spliced one): sometimes the next feature's
+	// rows go between the first and second row of a multi-row feature
+	for i := 0; i < len(groups); i++ {
+		if i+1 < len(groups) && len(a.Feats[i].Segs) >= 2 && a.Feats[i+1].Parent == "" && r.Chance(0.25) {
+			sb.WriteString(groups[i][0])
+			for _, l := range groups[i+1] {
+				sb.WriteString(l)
+			}
+			for _, l := range groups[i][1:] {
+				sb.WriteString(l)
+			}
+			i++
+			continue
+		}
+		for _, l := range groups[i] {
+			sb.WriteString(l)
 		}
 	}
 	if withFasta {
